@@ -283,3 +283,7 @@ func sortedKeys(m map[string]int) []string {
 	sort.Strings(ks)
 	return ks
 }
+
+// lk/ulk: the simulation lock (transparent to the race detector).
+func lk()  { simkit.Cur.Lock() }
+func ulk() { simkit.Cur.Unlock() }
